@@ -73,8 +73,8 @@ class Grid(object):
         """ get enumerate of local coordinates along axis i
         """
         return enumerate(self._Vals[i][
-            self._layout.starts[self._inv_dims_order[i]]:
-            self._layout.ends[self._inv_dims_order[i]]])
+            self._layout.starts[self._layout.inv_dims_order[i]]:
+            self._layout.ends[self._layout.inv_dims_order[i]]])
 
     def getCoordVals(self, i: int):
         """ get values of local coordinates along axis i
